@@ -60,6 +60,8 @@ def gen_history(rng, allow_manual, max_ops, small=True):
                 pop.append((k, k2, nid))
                 pool.append((k, k2, nid))
                 nid += 1
+                if rng.random() < 0.12:
+                    pop.append(pop[-1])            # the very same individual (object) a second time in one population
             ops.append(("u", pop))
         elif r < 0.82:
             k, k2 = random_key(rng, nan_prob=0.0, small=small), random_key(rng, nan_prob=0.0, small=small)
@@ -94,7 +96,8 @@ def run_real(rng, kind, cap, simmode, ops, rep=None, oracle=False, case=None):
     for op in ops:
         try:
             if op[0] == "u":
-                pop = [mk(rng, *it) for it in op[1]]
+                objs = {}
+                pop = [objs.setdefault(it, mk(rng, *it)) if it in objs or op[1].count(it) > 1 else mk(rng, *it) for it in op[1]]
                 h.update(pop)
                 offered += list(op[1])
                 if oracle:
@@ -121,7 +124,7 @@ def check_oracle(rep, kind, cap, simmode, h, offered, last_pop, case):
     if keys != sorted(keys):
         rep.violate(f"{kind}: keys not ascending: {keys}", "C10:not-sorted", case)
     for a, b in zip(st, st[1:]):
-        if a[0] == b[0] and not a[2] < b[2]:
+        if a[0] == b[0] and not a[2] <= b[2]:
             rep.violate(f"{kind}: equal keys not in arrival order: {st}", "C10:tie-order", case)
     # independence of copies
     ids_pop = {id(c) for c in last_pop}
